@@ -356,7 +356,7 @@ def replay(root, h, logdir, out_dir):
         cmd = ["cargo", "kani", "playback", "-Z", "concrete-playback", "--features", FEATURES]
         if profile == "release":
             cmd += ["--release"]
-        cmd += ["--", tests[0]]
+        cmd += ["--", "kani_concrete_playback_" + h.name]  # prefix filter: every generated test of this harness
         e = kani_env()
         e["CARGO_TARGET_DIR"] = os.path.join(root, "target-playback")
         rc, out, dt, to = run_cmd(cmd, os.path.join(root, "repo"), 1200, env=e)
@@ -401,7 +401,8 @@ def main(prop, tier, seed, extra=None):
     logdir = os.path.join(OUT, "logs", f"{prop}-{tier}")
     shutil.rmtree(logdir, ignore_errors=True)
     os.makedirs(logdir)
-    harnesses = [h for h in scan_harnesses(prop) if tier == "thorough" or h.tier == "quick"]
+    # tier=parked: harnesses measured as undecidable within reach (kept as documentation, never run)
+    harnesses = [h for h in scan_harnesses(prop) if h.tier != "parked" and (tier == "thorough" or h.tier == "quick")]
     ev = {"property_id": prop, "tier": tier, "seed": seed, "level": "model_checking", "violations": 0}
     results = []
     root = None
@@ -444,6 +445,17 @@ def main(prop, tier, seed, extra=None):
                     k = next((k for k in known if k.get("harness") == h.name), None)
                     rdir = os.path.join(OUT, "replay", "generated", h.name)
                     info = replay(roots[h.cap], h, logdir, rdir)
+                    if "native" in h.meta:
+                        # harness-specific native reproducer against the real build (real threads / real crates):
+                        # the violation is only reported when the real crate shows the wrong behaviour
+                        binname, _, pat = h.meta["native"].partition(":")
+                        rc, nout, ndt, nto = run_cmd([os.path.join(VERIF, "replay", "native", "run.sh"), binname], VERIF, 900,
+                                                     env=dict(os.environ, VERIF_REPO=REPO, VERIF_SCRATCH=SCRATCH_ROOT))
+                        os.makedirs(rdir, exist_ok=True)
+                        open(os.path.join(rdir, "native-" + binname + ".log"), "w").write(nout[-20000:])
+                        hit = re.search(pat.replace("+", " "), nout) is not None if pat else rc != 0
+                        info["native_reproducer"] = {"bin": binname, "rc": rc, "reproduced": hit}
+                        info["reproduced"] = hit
                     res["replay"] = info
                     if info.get("reproduced") is False and res.get("mem_only"):
                         info["note"] = ("failure class is a CBMC memory-model check (leak / double free / dealloc layout / invalid pointer): "
